@@ -57,7 +57,14 @@ class InitMethod(MethodDescriptor):
                         if instance_attr_spec.owner is not parent:
                             continue
                         if attr in kwargs:
+                            # The parent constructor stores what it is given
+                            # for attributes of an instance it does not own,
+                            # so protect the caller's object here.
                             parent_kwargs[attr] = kwargs.pop(attr)
+                            if not instance_attr_spec.do_not_copy:
+                                parent_kwargs[attr] = protect_via_deepcopy(
+                                    parent_kwargs[attr]
+                                )
                         else:
                             # Parent constructor may may be overridden, and not pick up
                             # subclass defaults. We pre-emptively solve this here.
